@@ -144,8 +144,12 @@ func partSched(c *vfw.Ctx, t *testing.T) {
 	if c.Thorough() {
 		bound = 2
 	}
-	for _, sc := range schedScenarios() {
-		st := e3.Explore(c, t, sc, bound)
+	for i, sc := range schedScenarios() {
+		b := bound
+		if i == 0 && b > 1 {
+			b = 1 // thorough: two departures on the async (acceptance observable) scenario only
+		}
+		st := e3.Explore(c, t, sc, b)
 		c.Add("e3_executions", int64(st.Execs))
 	}
 }
